@@ -13,7 +13,13 @@ RULE = ("random context-free grammars restricted to useful symbols (the library'
         "the tree checker and compared with the reference LL(1) parse), NotParsableException otherwise. Non-trivial: "
         ">=2 productions, one with a body of length >=2.")
 LEVEL = "proof"
-THEOREMS = ["Pfl.CFG.mem_firstSets_iff",
+THEOREMS = ["Pfl.LL1Lib.firstSet_spec",
+            "Pfl.LL1Lib.firstSet_ter",
+            "Pfl.LL1Lib.followSet_spec",
+            "Pfl.LL1Lib.table_spec",
+            "Pfl.LL1Lib.isLLOne_iff",
+            "Pfl.LL1Lib.parse_valid",
+            "Pfl.CFG.mem_firstSets_iff",
             "Pfl.CFG.mem_followSets_iff",
             "Pfl.CFG.mem_followSets_iff_counterexample",
             "Pfl.CFG.llParse_valid",
